@@ -70,6 +70,7 @@ func Main(c *run.Ctx) {
 	c.SetRule("a case = request (endpoint × query text from the LogQL/PromQL/TraceQL/Pyroscope grammars, mutated or random bytes × boundary values of start/end/step/limit/direction/time/since/interval/durations/path ids) × database script (result shape empty/1/7/100/10^4 rows, wrong column types, NULLs, fingerprint 0, timestamps outside the window, short ids, malformed payloads, error at open / at row k, cancelled context, rows held until the client left) × client behaviour (reads everything, leaves before the first byte, leaves mid-response); " +
 		"distinct key = endpoint × query shape × special parameters × database script class × client behaviour × answer class")
 	c.Assume("a request unanswered after 15 s counts as wedged only if two goroutine dumps 2 s apart show a goroutine of the request in the same qryn frames; otherwise the case is undecided")
+	c.Assume("bounded progress: a request unanswered after 15 s that is still computing is a violation when its live heap keeps growing past 1 GiB (runaway) or when its goroutine is running in the same qryn function in eleven dumps over 60 s with a flat heap (spinning) - the scripted result sets hold at most 10 000 rows and the lane serves one request at a time; anything else still computing is undecided")
 	c.Assume("quiescence = every driver.Rows opened for the request is closed and the census of goroutines with qryn frames is back at its pre-request value within 3 s (5 s for the tail endpoint, whose poll loop ticks once per second); dbVersion.throttle (sleeps 10 s by design) and the harness are whitelisted")
 	c.Assume(fmt.Sprintf("children run under ulimit -v %d KiB; exceeding it is a process death attributed to the open case", memKB))
 	c.Assume("an input class (endpoint × query shape class × special parameters × database script × client) that was confirmed as a wedge once, or as a process death three times, in this run is not executed again (counted under coverage table 'skipped'); its signature is already reported")
